@@ -266,12 +266,35 @@ def struct_decl(src, name, what):
     return out
 
 
+
+_KEY = ["req.key.clone()", "req.key", "req.key.to_string()", "req.key.to_owned()"]
+VOCAB = {
+    "TYPES_FROM": {"allowed", "result.limit", "result.remaining", "result.reset_after.as_secs()asi64", "result.retry_after.as_secs()asi64"},
+    "HTTP_REQ": set(_KEY + ["req.max_burst", "req.count_per_period", "req.period", "req.quantity.unwrap_or(#)", "timestamp"]),
+    "GRPC_REQ": set(_KEY + ["timestamp"] + [t % f for f in ("max_burst", "count_per_period", "period", "quantity")
+                                            for t in ("req.%sasi64", "i64::from(req.%s)", "req.%s.into()")]),
+    "GRPC_RESP": {"result.allowed", "result.limitasi32", "result.remainingasi32", "result.retry_afterasi32", "result.reset_afterasi32",
+                  "result.retry_after.min(i32::MAXasi64)asi32", "result.reset_after.min(i32::MAXasi64)asi32"},
+    "RESP_REPLY": {"RespValue::Integer(ifresponse.allowed{1}else{0})", "RespValue::Integer(response.limit)", "RespValue::Integer(response.remaining)",
+                   "RespValue::Integer(response.reset_after)", "RespValue::Integer(response.retry_after)"},
+    "RESP_REQ": {"key", "max_burst", "count_per_period", "period", "quantity", "SystemTime::now()"},
+}
+
 def gather_glue():
     g = {}
 
     def table(name, thunk):
         try:
             g[name] = thunk()
+            # an expression outside the vocabulary Server/Transport.v interprets means the source was restructured beyond what
+            # this translator reads (helpers, destructuring, ...): treat the table as unreadable rather than feed the model text
+            # it cannot interpret; a KNOWN expression in an unexpected place (a swapped field, another cast) still flows through
+            vocab = VOCAB.get(name)
+            if vocab is not None:
+                unknown = [e for _f, e in g[name] if e not in vocab]
+                if unknown:
+                    del g[name]
+                    raise TranslateError(f"{name}: expressions outside the interpreter's vocabulary: {unknown[:3]}")
         except TranslateError as e:
             if name in PINNED.get("tables", {}):
                 g[name] = [tuple(x) for x in PINNED["tables"][name]]
